@@ -286,7 +286,10 @@ def stress_stream(which, scale=1.0):
             iters, threads = 4000, 12
         else:
             iters, threads = 120, 8
-        iters = max(1, int(iters * scale))
+        # the interning-protocol mode is cheap (1 ms per iteration): run ten times as many, the rare races
+        # (well below 1 % of rounds) need them
+        per_mode = {"c03": 10.0, "c05": 2.0, "c09": 2.0}.get(which.lower(), 1.0)
+        iters = max(1, int(iters * scale * per_mode))
         cmd = [os.path.join(BIN, "stress"), which.lower(), str(iters), str(threads), str(ctx["seed"])]
         rc, out = sh(cmd, timeout=3600)
         lines = out.splitlines()
